@@ -235,7 +235,7 @@ func genProducer(c *cf.Case, r *cf.Rng, prop string) {
 		}
 	}
 	clusterBasic(c, r, maxB, maxT, maxP)
-	if prop == "C17" && r.Bool() {
+	if prop == "C17" && r.Bool() || prop == "C04" && r.Intn(4) == 0 {
 		// leaderless partitions from the start
 		for ti := range c.Cluster.Topics {
 			for pi := range c.Cluster.Topics[ti].Partitions {
